@@ -1022,6 +1022,13 @@ func FromV3RequestBodyFormData(mediaType *openapi3.MediaType) openapi2.Parameter
 				break
 			}
 		}
+		for _, name := range mediaType.Schema.Value.Required {
+			// requiredness of a form field is recorded in the enclosing object schema
+			if name == propName {
+				required = true
+				break
+			}
+		}
 
 		var v2Items *openapi2.SchemaRef
 		if val.Items != nil {
